@@ -12,7 +12,7 @@ META = {
                  "refines the lane-wise meaning; differential correspondence: one fixed battery run under every back-end / "
                  "dispatch configuration (each in a child process), compared with the single reference computed inside Coq "
                  "and cross-compared between configurations",
-    "level_text": "Machine-checked theorems C03_dispatch_total (no configuration with SSE2 reaches unimplemented!()), C03_dispatch_supported (the selected instance needs only features the CPU has), C03_hook_is_cap / C03_hook_level0 (hook H1 = the real selection on a capped CPU), C03_dispatch_irrelevant, the machine-independence theorems C03_{chacha_round,blake_round,jh_layer}_machine_indep (any machine that refines the lane meaning computes the lane result, any number of rounds), their instantiation with the intrinsic-level model of the x86 u32x4 type (C03_sse_u32x4_refines, C03_sse_chacha_narrow_indep, C03_sse_blake32_indep), and the composed statement WITHOUT hypothesis for the six real machines: C03_sse_m_refines / C03_avx2_m_refines / C03_generic_m_refines / C03_real_inst_refines (the machines built from the intrinsic-level models of SSE2, SSSE3/SSE4.1/AVX, AVX2 and from the portable back end with the soft.rs wrappers refine the lane meaning in all four components u32x4, u32x4x4, u64x4, u128x1/x2, either build profile), C03_backends_agree (any two configurations of any of the three macros give the same ChaCha narrow/wide rounds, BLAKE 32/64 rounds and JH rounds on all well-formed inputs, and neither panics), C03_real_backends_are_lane, C03_jh_lane_is_model / C03_real_backends_e8_is_model (JH's E8 on every real back end is Model/JH.v's e8). The framing code is covered too (Model/MachineFull.v: the machine record extended by storage conversion, byte output, lane access, the u64 counter views, transpose4; Proofs/MachineFull*.v): the WHOLE block functions refill_narrow, refill_wide, init_chacha_x, seek32/seek64, JH f8, BLAKE put_block (both word sizes) and finalize written over it are independent of any refining machine (C03_chacha_refill_narrow/wide_machine_indep, C03_jh_f8_machine_indep, C03_blake_put_block_machine_indep), their lane instance is the executable model the other properties are about (C03_chacha_refill_lane_is_model, C03_jh_f8_is_model, C03_blake_put_block_is_model), the six real machines refine (C03_real_xinst_refines), hence C03_real_blocks_are_model (on every back end and profile each block function equals Model.ChaChaGuts.refill / refill_wide, JH.m_f8, Blake.put_block32/64, compressor_finalize) and C03_real_blocks_agree (in every configuration of the three macros with SSE2 detected the dispatched function returns that value, never the unimplemented!() arm), and composed with C01/C14, C06, C04 (Proofs/Capstones.v): C03_real_chacha_block_eq_spec / C03_config_chacha_block_eq_spec (on every back end and in every configuration the narrow refill at counter k returns Spec.ChaCha.spec_block and the wide refill the four specified blocks), C03_real_jh_f8_eq_spec / C03_config_jh_f8_eq_spec (= Spec.JH.F8), C03_real_blake_compress_eq_spec / C03_config_blake_compress_eq_spec (= the specified compression function). 'No back end panics where another returns' in outcome form: C03_generic_fields_return (all 57 fields of the portable machine return Ok on well-formed operands, both profiles), C03_real_blocks_return / C03_portable_blocks_return (the seven block functions transcribed in the outcome monad return Ok on every back end); the remaining dispatch site init_chacha: C03_real_init_chacha_is_model / C03_config_init_chacha_is_model. Scalar code without a Machine (ChaCha::new, stream parameters) is outside this statement. The tie to the code is the battery: every configuration must reproduce the model's outputs and the model's selected Machine type, and all configurations must agree with each other; a child process that dies (SIGILL/SIGSEGV) or panics is an outcome.",
+    "level_text": "Machine-checked theorems C03_dispatch_total (no configuration with SSE2 reaches unimplemented!()), C03_dispatch_supported (the selected instance needs only features the CPU has), C03_hook_is_cap / C03_hook_level0 (hook H1 = the real selection on a capped CPU), C03_dispatch_irrelevant, the machine-independence theorems C03_{chacha_round,blake_round,jh_layer}_machine_indep (any machine that refines the lane meaning computes the lane result, any number of rounds), their instantiation with the intrinsic-level model of the x86 u32x4 type (C03_sse_u32x4_refines, C03_sse_chacha_narrow_indep, C03_sse_blake32_indep), and the composed statement WITHOUT hypothesis for the six real machines: C03_sse_m_refines / C03_avx2_m_refines / C03_generic_m_refines / C03_real_inst_refines (the machines built from the intrinsic-level models of SSE2, SSSE3/SSE4.1/AVX, AVX2 and from the portable back end with the soft.rs wrappers refine the lane meaning in all four components u32x4, u32x4x4, u64x4, u128x1/x2, either build profile), C03_backends_agree (any two configurations of any of the three macros give the same ChaCha narrow/wide rounds, BLAKE 32/64 rounds and JH rounds on all well-formed inputs, and neither panics), C03_real_backends_are_lane, C03_jh_lane_is_model / C03_real_backends_e8_is_model (JH's E8 on every real back end is Model/JH.v's e8). The framing code is covered too (Model/MachineFull.v: the machine record extended by storage conversion, byte output, lane access, the u64 counter views, transpose4; Proofs/MachineFull*.v): the WHOLE block functions refill_narrow, refill_wide, init_chacha_x, seek32/seek64, JH f8, BLAKE put_block (both word sizes) and finalize written over it are independent of any refining machine (C03_chacha_refill_narrow/wide_machine_indep, C03_jh_f8_machine_indep, C03_blake_put_block_machine_indep), their lane instance is the executable model the other properties are about (C03_chacha_refill_lane_is_model, C03_jh_f8_is_model, C03_blake_put_block_is_model), the six real machines refine (C03_real_xinst_refines), hence C03_real_blocks_are_model (on every back end and profile each block function equals Model.ChaChaGuts.refill / refill_wide, JH.m_f8, Blake.put_block32/64, compressor_finalize) and C03_real_blocks_agree (in every configuration of the three macros with SSE2 detected the dispatched function returns that value, never the unimplemented!() arm), and composed with C01/C14, C06, C04 (Proofs/Capstones.v): C03_real_chacha_block_eq_spec / C03_config_chacha_block_eq_spec (on every back end and in every configuration the narrow refill at counter k returns Spec.ChaCha.spec_block and the wide refill the four specified blocks), C03_real_jh_f8_eq_spec / C03_config_jh_f8_eq_spec (= Spec.JH.F8), C03_real_blake_compress_eq_spec / C03_config_blake_compress_eq_spec (= the specified compression function). 'No back end panics where another returns' in outcome form: C03_portable_fields_return (all 57 fields of the portable machine return Ok on well-formed operands, both profiles), C03_block_functions_return / C03_real_blocks_return (the seven block functions transcribed in the outcome monad return Ok on every back end); the remaining dispatch site init_chacha: C03_chacha_init_is_model / C03_real_chacha_init_is_stream_init. Scalar code without a Machine (ChaCha::new, stream parameters) is outside this statement. The tie to the code is the battery: every configuration must reproduce the model's outputs and the model's selected Machine type, and all configurations must agree with each other; a child process that dies (SIGILL/SIGSEGV) or panics is an outcome.",
     "level_note": "Trusted: Coq kernel+VM; the hand-written models (tied on generated cases); hook H1 (b4591b7); harness. "
                   "Non-host back ends run on an AVX2 CPU (through H1 and -C target-feature): code paths are exercised, "
                   "absence of an instruction is not. AVX and SSE4.1 are the same Machine type; they differ only in the "
